@@ -46,8 +46,17 @@ struct Finding {
 }
 
 fn finding(record: &str, clause: &str, what: &str, detail: String, bytes: &[u8]) -> Finding {
-    let sig = if clause.starts_with("panic/") { format!("C19/{}", clause) } else { format!("C19/mrtd/{}/{}", record, clause) };
-    Finding { sig, what: what.to_string(), detail, bytes: bytes.to_vec() }
+    let sig = if clause.starts_with("panic/") {
+        format!("C19/{}", clause)
+    } else {
+        format!("C19/mrtd/{}/{}", record, clause)
+    };
+    Finding {
+        sig,
+        what: what.to_string(),
+        detail,
+        bytes: bytes.to_vec(),
+    }
 }
 
 fn report(rep: &mut Report, f: Finding, input: Json, hseed: u64) {
@@ -59,7 +68,13 @@ fn report(rep: &mut Report, f: Finding, input: Json, hseed: u64) {
     rep.violation(
         &f.sig,
         &f.what,
-        Json::obj(vec![("input", input), ("observed", Json::s(f.detail)), ("emitted_bytes", bytes_json(&f.bytes)), ("history_seed", Json::Int(hseed as i128)), ("seed", Json::Int(rep.params.seed as i128))]),
+        Json::obj(vec![
+            ("input", input),
+            ("observed", Json::s(f.detail)),
+            ("emitted_bytes", bytes_json(&f.bytes)),
+            ("history_seed", Json::Int(hseed as i128)),
+            ("seed", Json::Int(rep.params.seed as i128)),
+        ]),
     );
 }
 
@@ -112,16 +127,48 @@ fn gen_peers(rng: &mut Rng) -> Vec<Peer> {
             4_200_000_000 + i as u32
         };
         let (remote, local): (IpAddr, IpAddr) = if v6 {
-            (IpAddr::V6(Ipv6Addr::new(0x2001, 0xdb8, 0xfe, 0, 0, 0, 0, 0x10 + i as u16)), IpAddr::V6(Ipv6Addr::new(0x2001, 0xdb8, 0xfe, 0, 0, 0, 0, 1)))
+            (
+                IpAddr::V6(Ipv6Addr::new(
+                    0x2001,
+                    0xdb8,
+                    0xfe,
+                    0,
+                    0,
+                    0,
+                    0,
+                    0x10 + i as u16,
+                )),
+                IpAddr::V6(Ipv6Addr::new(0x2001, 0xdb8, 0xfe, 0, 0, 0, 0, 1)),
+            )
         } else {
-            (IpAddr::V4(Ipv4Addr::new(192, 0, 2, 10 + i as u8)), IpAddr::V4(Ipv4Addr::new(192, 0, 2, 1)))
+            (
+                IpAddr::V4(Ipv4Addr::new(192, 0, 2, 10 + i as u8)),
+                IpAddr::V4(Ipv4Addr::new(192, 0, 2, 1)),
+            )
         };
-        let src = Arc::new(table::Source::new(remote, local, asn, LOCAL_ASN, Ipv4Addr::new(1, 1, rng.below(200) as u8, 10 + i as u8), if ibgp { table::PeerRole::Ibgp } else { table::PeerRole::Ebgp }));
-        v.push(Peer { src, addpath: rng.chance(1, 3) });
+        let src = Arc::new(table::Source::new(
+            remote,
+            local,
+            asn,
+            LOCAL_ASN,
+            Ipv4Addr::new(1, 1, rng.below(200) as u8, 10 + i as u8),
+            if ibgp {
+                table::PeerRole::Ibgp
+            } else {
+                table::PeerRole::Ebgp
+            },
+        ));
+        v.push(Peer {
+            src,
+            addpath: rng.chance(1, 3),
+        });
     }
     if rng.chance(1, 4) {
         // locally originated routes (gRPC add_path) share the RIB with peer routes
-        v.push(Peer { src: table::Source::local(), addpath: false });
+        v.push(Peer {
+            src: table::Source::local(),
+            addpath: false,
+        });
     }
     v
 }
@@ -129,39 +176,81 @@ fn gen_peers(rng: &mut Rng) -> Vec<Peer> {
 fn gen_nexthop_for(rng: &mut Rng, fam: Family, peer: &Peer) -> Option<Nexthop> {
     let v6peer = peer.src.remote_addr.is_ipv6();
     if fam == Family::IPV6 {
-        return Some(if rng.chance(1, 3) { Nexthop::V6LinkLocal(rand_v6(rng), rand_ll(rng)) } else { Nexthop::V6(rand_v6(rng)) });
+        return Some(if rng.chance(1, 3) {
+            Nexthop::V6LinkLocal(rand_v6(rng), rand_ll(rng))
+        } else {
+            Nexthop::V6(rand_v6(rng))
+        });
     }
     if fam == Family::IPV4 {
         // RFC 8950: an IPv4 prefix learned over an IPv6 session may have an IPv6 next hop
         if v6peer && rng.chance(2, 3) {
-            return Some(if rng.chance(1, 4) { Nexthop::V6LinkLocal(rand_v6(rng), rand_ll(rng)) } else { Nexthop::V6(rand_v6(rng)) });
+            return Some(if rng.chance(1, 4) {
+                Nexthop::V6LinkLocal(rand_v6(rng), rand_ll(rng))
+            } else {
+                Nexthop::V6(rand_v6(rng))
+            });
         }
         return Some(Nexthop::V4(rand_v4(rng)));
     }
     // VPN / EVPN
-    Some(if rng.bool() { Nexthop::V4(rand_v4(rng)) } else { Nexthop::V6(rand_v6(rng)) })
+    Some(if rng.bool() {
+        Nexthop::V4(rand_v4(rng))
+    } else {
+        Nexthop::V6(rand_v6(rng))
+    })
 }
 
 fn import_policy_set_local_pref() -> Arc<table::PolicyAssignment> {
     let mut pt = table::PolicyTable::new();
-    let actions = table::Actions { local_pref: Some(table::LocalPrefAction { value: 250 }), ..Default::default() };
-    pt.add_statement("lp", vec![], Some(table::Disposition::Accept), actions).unwrap();
+    let actions = table::Actions {
+        local_pref: Some(table::LocalPrefAction { value: 250 }),
+        ..Default::default()
+    };
+    pt.add_statement("lp", vec![], Some(table::Disposition::Accept), actions)
+        .unwrap();
     pt.add_policy("pa", vec!["lp".into()]).unwrap();
-    pt.build_assignment(None, "a", table::PolicyDirection::Import, table::Disposition::Accept, vec!["pa".into()]).unwrap()
+    pt.build_assignment(
+        None,
+        "a",
+        table::PolicyDirection::Import,
+        table::Disposition::Accept,
+        vec!["pa".into()],
+    )
+    .unwrap()
 }
 
 // ------------------------------------------------------------------ BGP4MP judgement
 
 /// Judge the BGP4MP records emitted for one op.  Ok(counters) / Err(finding).
-fn judge_bgp4mp(ps: &mut Parsers, bytes: &[u8], op: &Op, peers: &[Peer]) -> Result<Vec<String>, Finding> {
+fn judge_bgp4mp(
+    ps: &mut Parsers,
+    bytes: &[u8],
+    op: &Op,
+    peers: &[Peer],
+) -> Result<Vec<String>, Finding> {
     let exp = &op.exp;
     let src = &peers[op.peer].src;
     let recs = match read_mrt(bytes) {
         Ok(r) => r,
-        Err((c, d)) => return Err(finding("bgp4mp", &c, "MRT common header length does not delimit the record", d, bytes)),
+        Err((c, d)) => {
+            return Err(finding(
+                "bgp4mp",
+                &c,
+                "MRT common header length does not delimit the record",
+                d,
+                bytes,
+            ));
+        }
     };
     if recs.is_empty() {
-        return Err(finding("bgp4mp", "nothing-emitted", "no MRT record for a monitored Adj-RIB-In change", String::new(), bytes));
+        return Err(finding(
+            "bgp4mp",
+            "nothing-emitted",
+            "no MRT record for a monitored Adj-RIB-In change",
+            String::new(),
+            bytes,
+        ));
     }
     let mut d = Decoded::default();
     let mut name = "bgp4mp";
@@ -169,58 +258,168 @@ fn judge_bgp4mp(ps: &mut Parsers, bytes: &[u8], op: &Op, peers: &[Peer]) -> Resu
         let mut body = r.body;
         if r.typ == 17 {
             if body.len() < 4 {
-                return Err(finding("bgp4mp-et", "common-length", "BGP4MP_ET record shorter than its microsecond field", String::new(), bytes));
+                return Err(finding(
+                    "bgp4mp-et",
+                    "common-length",
+                    "BGP4MP_ET record shorter than its microsecond field",
+                    String::new(),
+                    bytes,
+                ));
             }
             body = &body[4..];
         } else if r.typ != 16 {
-            return Err(finding("bgp4mp", "type", "record type is not BGP4MP / BGP4MP_ET", format!("type {}", r.typ), bytes));
+            return Err(finding(
+                "bgp4mp",
+                "type",
+                "record type is not BGP4MP / BGP4MP_ET",
+                format!("type {}", r.typ),
+                bytes,
+            ));
         }
         let (n, st_as4, st_addpath, is_msg) = match bgp4mp_subtype(r.subtype) {
             Some(x) => x,
-            None => return Err(finding("bgp4mp", "subtype-unknown", "unknown BGP4MP subtype", format!("subtype {}", r.subtype), bytes)),
+            None => {
+                return Err(finding(
+                    "bgp4mp",
+                    "subtype-unknown",
+                    "unknown BGP4MP subtype",
+                    format!("subtype {}", r.subtype),
+                    bytes,
+                ));
+            }
         };
         name = n;
         if !is_msg {
-            return Err(finding(n, "subtype-kind", "a BGP message was monitored but the record is a state change", String::new(), bytes));
+            return Err(finding(
+                n,
+                "subtype-kind",
+                "a BGP message was monitored but the record is a state change",
+                String::new(),
+                bytes,
+            ));
         }
         let m = match read_mp(body, st_as4) {
             Ok(m) => m,
             Err(why) => {
                 if read_mp(body, !st_as4).is_ok() {
-                    return Err(finding(n, "as-width-vs-subtype", "AS fields of the BGP4MP header do not have the width the subtype states", format!("subtype {} states {}-byte AS fields ({})", r.subtype, if st_as4 { 4 } else { 2 }, why), bytes));
+                    return Err(finding(
+                        n,
+                        "as-width-vs-subtype",
+                        "AS fields of the BGP4MP header do not have the width the subtype states",
+                        format!(
+                            "subtype {} states {}-byte AS fields ({})",
+                            r.subtype,
+                            if st_as4 { 4 } else { 2 },
+                            why
+                        ),
+                        bytes,
+                    ));
                 }
-                return Err(finding(n, "header-malformed", "BGP4MP header does not read with either AS width", why, bytes));
+                return Err(finding(
+                    n,
+                    "header-malformed",
+                    "BGP4MP header does not read with either AS width",
+                    why,
+                    bytes,
+                ));
             }
         };
         if st_addpath != exp.addpath {
-            return Err(finding(n, "subtype-addpath", "add-path-ness of the subtype differs from the monitored session", format!("subtype {} addpath={} session addpath={}", r.subtype, st_addpath, exp.addpath), bytes));
+            return Err(finding(
+                n,
+                "subtype-addpath",
+                "add-path-ness of the subtype differs from the monitored session",
+                format!(
+                    "subtype {} addpath={} session addpath={}",
+                    r.subtype, st_addpath, exp.addpath
+                ),
+                bytes,
+            ));
         }
         if (m.afi == 2) != src.remote_addr.is_ipv6() {
-            return Err(finding("bgp4mp", "afi", "AFI of the BGP4MP header does not match the peer address family", format!("afi {} peer {}", m.afi, src.remote_addr), bytes));
+            return Err(finding(
+                "bgp4mp",
+                "afi",
+                "AFI of the BGP4MP header does not match the peer address family",
+                format!("afi {} peer {}", m.afi, src.remote_addr),
+                bytes,
+            ));
         }
         if m.remote != ipn(&src.remote_addr) || m.local != ipn(&src.local_addr) {
-            return Err(finding("bgp4mp", "addresses", "addresses in the BGP4MP header differ from the session's", format!("{} {} expected {} {}", hex(m.remote), hex(m.local), src.remote_addr, src.local_addr), bytes));
+            return Err(finding(
+                "bgp4mp",
+                "addresses",
+                "addresses in the BGP4MP header differ from the session's",
+                format!(
+                    "{} {} expected {} {}",
+                    hex(m.remote),
+                    hex(m.local),
+                    src.remote_addr,
+                    src.local_addr
+                ),
+                bytes,
+            ));
         }
         if m.remote_as != src.remote_asn || m.local_as != src.local_asn {
-            return Err(finding("bgp4mp", "as-numbers", "AS numbers in the BGP4MP header differ from the session's", format!("{} {} expected {} {}", m.remote_as, m.local_as, src.remote_asn, src.local_asn), bytes));
+            return Err(finding(
+                "bgp4mp",
+                "as-numbers",
+                "AS numbers in the BGP4MP header differ from the session's",
+                format!(
+                    "{} {} expected {} {}",
+                    m.remote_as, m.local_as, src.remote_asn, src.local_asn
+                ),
+                bytes,
+            ));
         }
         let pdu = match one_pdu(m.rest, 2) {
             Ok(p) => p,
-            Err((c, dd)) => return Err(finding("bgp4mp", &c, "a BGP4MP_MESSAGE record must contain exactly one BGP message filling the record", dd, bytes)),
+            Err((c, dd)) => {
+                return Err(finding(
+                    "bgp4mp",
+                    &c,
+                    "a BGP4MP_MESSAGE record must contain exactly one BGP message filling the record",
+                    dd,
+                    bytes,
+                ));
+            }
         };
         match ps.parse(pdu, st_addpath, !st_as4) {
             Ok(pm) => d.absorb(pm),
             Err((c, dd)) => {
-                let c = if c.starts_with("panic/") { c } else { format!("{}/{}", c, exp.shape()) };
-                return Err(finding("bgp4mp", &c, "embedded UPDATE is not readable by the repository's parser with the add-path / AS-size setting the record states", dd, bytes));
+                let c = if c.starts_with("panic/") {
+                    c
+                } else {
+                    format!("{}/{}", c, exp.shape())
+                };
+                return Err(finding(
+                    "bgp4mp",
+                    &c,
+                    "embedded UPDATE is not readable by the repository's parser with the add-path / AS-size setting the record states",
+                    dd,
+                    bytes,
+                ));
             }
         }
     }
     if let Err((c, dd)) = compare_exp(exp, &d) {
-        return Err(finding("bgp4mp", &format!("{}/{}", c, exp.shape()), "embedded UPDATE(s) do not parse back to the monitored prefixes / attributes / next hop", dd, bytes));
+        return Err(finding(
+            "bgp4mp",
+            &format!("{}/{}", c, exp.shape()),
+            "embedded UPDATE(s) do not parse back to the monitored prefixes / attributes / next hop",
+            dd,
+            bytes,
+        ));
     }
-    let mut counters = vec![format!("mrtd:subtype/{}", name), format!("mrtd:family/{}", fam_name(exp.family))];
-    counters.push(if src.remote_addr.is_ipv6() { "mrtd:bgp4mp-peer-v6".into() } else { "mrtd:bgp4mp-peer-v4".into() });
+    let mut counters = vec![
+        format!("mrtd:subtype/{}", name),
+        format!("mrtd:family/{}", fam_name(exp.family)),
+    ];
+    counters.push(if src.remote_addr.is_ipv6() {
+        "mrtd:bgp4mp-peer-v6".into()
+    } else {
+        "mrtd:bgp4mp-peer-v4".into()
+    });
     if exp.addpath {
         counters.push("mrtd:bgp4mp-addpath".into());
     }
@@ -242,7 +441,18 @@ fn judge_bgp4mp(ps: &mut Parsers, bytes: &[u8], op: &Op, peers: &[Peer]) -> Resu
 fn op_json(op: &Op, peers: &[Peer]) -> Json {
     let s = &peers[op.peer].src;
     Json::obj(vec![
-        ("peer", Json::s(format!("{} AS{} id {} local {} AS{} addpath={}", s.remote_addr, s.remote_asn, Ipv4Addr::from(s.router_id), s.local_addr, s.local_asn, peers[op.peer].addpath))),
+        (
+            "peer",
+            Json::s(format!(
+                "{} AS{} id {} local {} AS{} addpath={}",
+                s.remote_addr,
+                s.remote_asn,
+                Ipv4Addr::from(s.router_id),
+                s.local_addr,
+                s.local_asn,
+                peers[op.peer].addpath
+            )),
+        ),
         ("route", op.exp.json()),
     ])
 }
@@ -275,7 +485,16 @@ type GtKey = (bool, u8, Vec<u8>);
 type GtPath = (Vec<u8>, u32, [u8; 4], String, Option<Vec<u8>>);
 
 fn gt_path_str(p: &GtPath) -> String {
-    format!("peer {} AS{} id {} nh {} attrs [{}]", hex(&p.0), p.1, hex(&p.2), p.4.as_ref().map(|x| hex(x)).unwrap_or_else(|| "none".into()), short(&p.3, 200))
+    format!(
+        "peer {} AS{} id {} nh {} attrs [{}]",
+        hex(&p.0),
+        p.1,
+        hex(&p.2),
+        p.4.as_ref()
+            .map(|x| hex(x))
+            .unwrap_or_else(|| "none".into()),
+        short(&p.3, 200)
+    )
 }
 
 fn ground_truth(tables: &TableManager) -> BTreeMap<GtKey, (String, Vec<GtPath>)> {
@@ -286,7 +505,15 @@ fn ground_truth(tables: &TableManager) -> BTreeMap<GtKey, (String, Vec<GtPath>)>
             let paths: Vec<GtPath> = d
                 .paths
                 .iter()
-                .map(|p| (ipn(&p.source.remote_addr), p.source.remote_asn, p.source.router_id.to_be_bytes(), attrs_canon(&p.attr), p.nexthop.as_ref().map(nh_bytes)))
+                .map(|p| {
+                    (
+                        ipn(&p.source.remote_addr),
+                        p.source.remote_asn,
+                        p.source.router_id.to_be_bytes(),
+                        attrs_canon(&p.attr),
+                        p.nexthop.as_ref().map(nh_bytes),
+                    )
+                })
                 .collect();
             m.insert((v6, l, b), (d.net.to_string(), paths));
         }
@@ -295,29 +522,73 @@ fn ground_truth(tables: &TableManager) -> BTreeMap<GtKey, (String, Vec<GtPath>)>
 }
 
 /// Judge one dump file against the RIB.  Ok(counters) / Err(finding).
-fn judge_table_dump(ps: &mut Parsers, bytes: &[u8], router_id: Ipv4Addr, gt: &BTreeMap<GtKey, (String, Vec<GtPath>)>, rep: &mut Report) -> Result<(), Finding> {
+fn judge_table_dump(
+    ps: &mut Parsers,
+    bytes: &[u8],
+    router_id: Ipv4Addr,
+    gt: &BTreeMap<GtKey, (String, Vec<GtPath>)>,
+    rep: &mut Report,
+) -> Result<(), Finding> {
     let recs = match read_mrt(bytes) {
         Ok(r) => r,
-        Err((c, d)) => return Err(finding("file", &c, "MRT common header lengths do not delimit the records of the dump file", d, bytes)),
+        Err((c, d)) => {
+            return Err(finding(
+                "file",
+                &c,
+                "MRT common header lengths do not delimit the records of the dump file",
+                d,
+                bytes,
+            ));
+        }
     };
     if recs.is_empty() {
-        return Err(finding("file", "empty", "dump_table wrote nothing", String::new(), bytes));
+        return Err(finding(
+            "file",
+            "empty",
+            "dump_table wrote nothing",
+            String::new(),
+            bytes,
+        ));
     }
     // ---- PEER_INDEX_TABLE
     let r0 = &recs[0];
     if r0.typ != 13 || r0.subtype != 1 {
-        return Err(finding("peer-index", "missing", "a TABLE_DUMP_V2 file must start with the PEER_INDEX_TABLE", format!("first record type {} subtype {}", r0.typ, r0.subtype), bytes));
+        return Err(finding(
+            "peer-index",
+            "missing",
+            "a TABLE_DUMP_V2 file must start with the PEER_INDEX_TABLE",
+            format!("first record type {} subtype {}", r0.typ, r0.subtype),
+            bytes,
+        ));
     }
     let body = r0.body;
     if body.len() < 8 {
-        return Err(finding("peer-index", "short", "PEER_INDEX_TABLE shorter than its fixed fields", String::new(), body));
+        return Err(finding(
+            "peer-index",
+            "short",
+            "PEER_INDEX_TABLE shorter than its fixed fields",
+            String::new(),
+            body,
+        ));
     }
     if body[..4] != router_id.octets() {
-        return Err(finding("peer-index", "collector-id", "collector BGP ID differs from the router id", format!("{} expected {}", hex(&body[..4]), router_id), body));
+        return Err(finding(
+            "peer-index",
+            "collector-id",
+            "collector BGP ID differs from the router id",
+            format!("{} expected {}", hex(&body[..4]), router_id),
+            body,
+        ));
     }
     let vlen = u16::from_be_bytes([body[4], body[5]]) as usize;
     if body.len() < 8 + vlen {
-        return Err(finding("peer-index", "view-name", "view name overruns the record", format!("{}", vlen), body));
+        return Err(finding(
+            "peer-index",
+            "view-name",
+            "view name overruns the record",
+            format!("{}", vlen),
+            body,
+        ));
     }
     let o = 6 + vlen;
     let count = u16::from_be_bytes([body[o], body[o + 1]]) as usize;
@@ -328,18 +599,38 @@ fn judge_table_dump(ps: &mut Parsers, bytes: &[u8], router_id: Ipv4Addr, gt: &BT
         let alen = if typ & 1 != 0 { 16 } else { 4 };
         let aslen = if typ & 2 != 0 { 4 } else { 2 };
         if o + 1 + 4 + alen + aslen > body.len() {
-            return Err(finding("peer-index", "peer-entry-overrun", "a peer entry overruns the record", format!("entry {} type {:02x}", table_read.len(), typ), body));
+            return Err(finding(
+                "peer-index",
+                "peer-entry-overrun",
+                "a peer entry overruns the record",
+                format!("entry {} type {:02x}", table_read.len(), typ),
+                body,
+            ));
         }
         let mut id = [0u8; 4];
         id.copy_from_slice(&body[o + 1..o + 5]);
         let addr = body[o + 5..o + 5 + alen].to_vec();
         let a = &body[o + 5 + alen..o + 5 + alen + aslen];
-        let asn = if aslen == 4 { u32::from_be_bytes([a[0], a[1], a[2], a[3]]) } else { u16::from_be_bytes([a[0], a[1]]) as u32 };
+        let asn = if aslen == 4 {
+            u32::from_be_bytes([a[0], a[1], a[2], a[3]])
+        } else {
+            u16::from_be_bytes([a[0], a[1]]) as u32
+        };
         table_read.push(TdPeerRead { typ, id, addr, asn });
         o += 1 + 4 + alen + aslen;
     }
     if count != table_read.len() {
-        return Err(finding("peer-index", "peer-count", "peer count field differs from the peer entries written", format!("count field {} entries in record {}", count, table_read.len()), body));
+        return Err(finding(
+            "peer-index",
+            "peer-count",
+            "peer count field differs from the peer entries written",
+            format!(
+                "count field {} entries in record {}",
+                count,
+                table_read.len()
+            ),
+            body,
+        ));
     }
     // peers written == distinct peers that have a path in the dumped RIB
     let mut want_peers: BTreeMap<Vec<u8>, (u32, [u8; 4])> = BTreeMap::new();
@@ -351,19 +642,57 @@ fn judge_table_dump(ps: &mut Parsers, bytes: &[u8], router_id: Ipv4Addr, gt: &BT
     let mut seen: BTreeMap<Vec<u8>, usize> = BTreeMap::new();
     for (i, p) in table_read.iter().enumerate() {
         if seen.insert(p.addr.clone(), i).is_some() {
-            return Err(finding("peer-index", "peer-duplicate", "the same peer address appears twice in the PEER_INDEX_TABLE", hex(&p.addr), body));
+            return Err(finding(
+                "peer-index",
+                "peer-duplicate",
+                "the same peer address appears twice in the PEER_INDEX_TABLE",
+                hex(&p.addr),
+                body,
+            ));
         }
         match want_peers.get(&p.addr) {
-            None => return Err(finding("peer-index", "peer-unknown", "PEER_INDEX_TABLE lists a peer no dumped path was learned from", format!("peer {} addr {} AS{}", i, hex(&p.addr), p.asn), body)),
+            None => {
+                return Err(finding(
+                    "peer-index",
+                    "peer-unknown",
+                    "PEER_INDEX_TABLE lists a peer no dumped path was learned from",
+                    format!("peer {} addr {} AS{}", i, hex(&p.addr), p.asn),
+                    body,
+                ));
+            }
             Some((asn, id)) => {
                 if *asn != p.asn || *id != p.id {
-                    return Err(finding("peer-index", "peer-differs", "peer entry AS / BGP ID differ from the source of the paths", format!("peer {} addr {}: AS{} id {} expected AS{} id {}", i, hex(&p.addr), p.asn, hex(&p.id), asn, hex(id)), body));
+                    return Err(finding(
+                        "peer-index",
+                        "peer-differs",
+                        "peer entry AS / BGP ID differ from the source of the paths",
+                        format!(
+                            "peer {} addr {}: AS{} id {} expected AS{} id {}",
+                            i,
+                            hex(&p.addr),
+                            p.asn,
+                            hex(&p.id),
+                            asn,
+                            hex(id)
+                        ),
+                        body,
+                    ));
                 }
             }
         }
     }
     if table_read.len() != want_peers.len() {
-        return Err(finding("peer-index", "peer-count", "peer count differs from the number of peers paths were learned from", format!("{} peers written, {} distinct sources in the RIB", table_read.len(), want_peers.len()), body));
+        return Err(finding(
+            "peer-index",
+            "peer-count",
+            "peer count differs from the number of peers paths were learned from",
+            format!(
+                "{} peers written, {} distinct sources in the RIB",
+                table_read.len(),
+                want_peers.len()
+            ),
+            body,
+        ));
     }
     rep.count("mrtd:td-peer-index-tables");
     rep.count_n("mrtd:td-peers-written", table_read.len() as u64);
@@ -376,26 +705,66 @@ fn judge_table_dump(ps: &mut Parsers, bytes: &[u8], router_id: Ipv4Addr, gt: &BT
     let mut ribs: Vec<TdRibRead> = Vec::new();
     for r in &recs[1..] {
         if r.typ != 13 {
-            return Err(finding("rib", "type", "a record after the PEER_INDEX_TABLE is not TABLE_DUMP_V2", format!("type {}", r.typ), r.body));
+            return Err(finding(
+                "rib",
+                "type",
+                "a record after the PEER_INDEX_TABLE is not TABLE_DUMP_V2",
+                format!("type {}", r.typ),
+                r.body,
+            ));
         }
         let v6 = match r.subtype {
             2 => false,
             4 => true,
-            1 => return Err(finding("peer-index", "repeated", "a second PEER_INDEX_TABLE in one dump", String::new(), r.body)),
-            s => return Err(finding("rib", "subtype", "unexpected TABLE_DUMP_V2 subtype (only RIB_IPV4/IPV6_UNICAST are produced)", format!("subtype {}", s), r.body)),
+            1 => {
+                return Err(finding(
+                    "peer-index",
+                    "repeated",
+                    "a second PEER_INDEX_TABLE in one dump",
+                    String::new(),
+                    r.body,
+                ));
+            }
+            s => {
+                return Err(finding(
+                    "rib",
+                    "subtype",
+                    "unexpected TABLE_DUMP_V2 subtype (only RIB_IPV4/IPV6_UNICAST are produced)",
+                    format!("subtype {}", s),
+                    r.body,
+                ));
+            }
         };
         let b = r.body;
         if b.len() < 7 {
-            return Err(finding("rib", "short", "RIB record shorter than its fixed fields", String::new(), b));
+            return Err(finding(
+                "rib",
+                "short",
+                "RIB record shorter than its fixed fields",
+                String::new(),
+                b,
+            ));
         }
         let seq = u32::from_be_bytes([b[0], b[1], b[2], b[3]]);
         let plen = b[4];
         if plen > if v6 { 128 } else { 32 } {
-            return Err(finding("rib", "subtype-afi", "prefix length exceeds the address size of the subtype's AFI", format!("{} bits in subtype {}", plen, r.subtype), b));
+            return Err(finding(
+                "rib",
+                "subtype-afi",
+                "prefix length exceeds the address size of the subtype's AFI",
+                format!("{} bits in subtype {}", plen, r.subtype),
+                b,
+            ));
         }
         let pb = (plen as usize).div_ceil(8);
         if b.len() < 5 + pb + 2 {
-            return Err(finding("rib", "prefix-overrun", "prefix overruns the record", String::new(), b));
+            return Err(finding(
+                "rib",
+                "prefix-overrun",
+                "prefix overruns the record",
+                String::new(),
+                b,
+            ));
         }
         let mut o = 5 + pb;
         let cnt = u16::from_be_bytes([b[o], b[o + 1]]) as usize;
@@ -403,20 +772,48 @@ fn judge_table_dump(ps: &mut Parsers, bytes: &[u8], router_id: Ipv4Addr, gt: &BT
         let mut entries = Vec::new();
         while o < b.len() {
             if b.len() - o < 8 {
-                return Err(finding("rib", "entry-overrun", "a RIB entry header overruns the record", format!("entry {}", entries.len()), b));
+                return Err(finding(
+                    "rib",
+                    "entry-overrun",
+                    "a RIB entry header overruns the record",
+                    format!("entry {}", entries.len()),
+                    b,
+                ));
             }
             let idx = u16::from_be_bytes([b[o], b[o + 1]]) as usize;
             let alen = u16::from_be_bytes([b[o + 6], b[o + 7]]) as usize;
             if o + 8 + alen > b.len() {
-                return Err(finding("rib", "attr-length", "attribute length of a RIB entry overruns the record", format!("entry {} attr length {}", entries.len(), alen), b));
+                return Err(finding(
+                    "rib",
+                    "attr-length",
+                    "attribute length of a RIB entry overruns the record",
+                    format!("entry {} attr length {}", entries.len(), alen),
+                    b,
+                ));
             }
-            entries.push(TdEntryRead { idx, blob: b[o + 8..o + 8 + alen].to_vec() });
+            entries.push(TdEntryRead {
+                idx,
+                blob: b[o + 8..o + 8 + alen].to_vec(),
+            });
             o += 8 + alen;
         }
         if cnt != entries.len() {
-            return Err(finding("rib", "entry-count", "entry count field differs from the entries in the record", format!("count field {} entries {}", cnt, entries.len()), b));
+            return Err(finding(
+                "rib",
+                "entry-count",
+                "entry count field differs from the entries in the record",
+                format!("count field {} entries {}", cnt, entries.len()),
+                b,
+            ));
         }
-        ribs.push(TdRibRead { v6, seq, plen, pbytes: b[5..5 + pb].to_vec(), prefix_wire: b[4..5 + pb].to_vec(), entries });
+        ribs.push(TdRibRead {
+            v6,
+            seq,
+            plen,
+            pbytes: b[5..5 + pb].to_vec(),
+            prefix_wire: b[4..5 + pb].to_vec(),
+            entries,
+        });
     }
     // sequence numbers: strictly increasing within a subtype (judged); a restart
     // between the IPv4 and the IPv6 part is counted, not judged (the statement
@@ -427,7 +824,13 @@ fn judge_table_dump(ps: &mut Parsers, bytes: &[u8], router_id: Ipv4Addr, gt: &BT
         let k = r.v6 as usize;
         if let Some(p) = last[k] {
             if r.seq <= p {
-                return Err(finding("rib", "sequence", "sequence numbers of the RIB records of one subtype are not increasing", format!("{} after {}", r.seq, p), bytes));
+                return Err(finding(
+                    "rib",
+                    "sequence",
+                    "sequence numbers of the RIB records of one subtype are not increasing",
+                    format!("{} after {}", r.seq, p),
+                    bytes,
+                ));
             }
         }
         last[k] = Some(r.seq);
@@ -443,41 +846,96 @@ fn judge_table_dump(ps: &mut Parsers, bytes: &[u8], router_id: Ipv4Addr, gt: &BT
     for r in &ribs {
         let key: GtKey = (r.v6, r.plen, r.pbytes.clone());
         let Some((pname, want)) = gt.get(&key) else {
-            return Err(finding("rib", "prefix-unknown", "a RIB record for a prefix the RIB does not hold", format!("{}/{} v6={}", hex(&r.pbytes), r.plen, r.v6), bytes));
+            return Err(finding(
+                "rib",
+                "prefix-unknown",
+                "a RIB record for a prefix the RIB does not hold",
+                format!("{}/{} v6={}", hex(&r.pbytes), r.plen, r.v6),
+                bytes,
+            ));
         };
         if used.insert(key.clone(), true).is_some() {
-            return Err(finding("rib", "prefix-duplicate", "two RIB records for the same prefix", pname.clone(), bytes));
+            return Err(finding(
+                "rib",
+                "prefix-duplicate",
+                "two RIB records for the same prefix",
+                pname.clone(),
+                bytes,
+            ));
         }
         let mut got: Vec<GtPath> = Vec::new();
         for (n, e) in r.entries.iter().enumerate() {
             if e.idx >= table_read.len() {
-                return Err(finding("rib", "peer-index-range", "peer index is not below the peer count of the PEER_INDEX_TABLE", format!("{} entry {} index {} peers {}", pname, n, e.idx, table_read.len()), bytes));
+                return Err(finding(
+                    "rib",
+                    "peer-index-range",
+                    "peer index is not below the peer count of the PEER_INDEX_TABLE",
+                    format!(
+                        "{} entry {} index {} peers {}",
+                        pname,
+                        n,
+                        e.idx,
+                        table_read.len()
+                    ),
+                    bytes,
+                ));
             }
             let tlvs = match walk_attrs(&e.blob) {
                 Ok(t) => t,
-                Err(why) => return Err(finding("rib", "attr-length", "attribute block of a RIB entry is not a sequence of well-framed attributes", format!("{} entry {}: {}", pname, n, why), &e.blob)),
+                Err(why) => {
+                    return Err(finding(
+                        "rib",
+                        "attr-length",
+                        "attribute block of a RIB entry is not a sequence of well-framed attributes",
+                        format!("{} entry {}: {}", pname, n, why),
+                        &e.blob,
+                    ));
+                }
             };
             let mut rest = Vec::new();
             let mut mp_nh: Option<Vec<u8>> = None;
             for (_f, code, val, whole) in &tlvs {
                 if *code == Attribute::MP_REACH {
                     if val.is_empty() || val.len() != 1 + val[0] as usize || mp_nh.is_some() {
-                        return Err(finding("rib", "mp-reach-form", "MP_REACH_NLRI in a RIB entry is not the abbreviated next-hop-only form of RFC 6396 4.3.4", format!("{} entry {}: {}", pname, n, hex(val)), &e.blob));
+                        return Err(finding(
+                            "rib",
+                            "mp-reach-form",
+                            "MP_REACH_NLRI in a RIB entry is not the abbreviated next-hop-only form of RFC 6396 4.3.4",
+                            format!("{} entry {}: {}", pname, n, hex(val)),
+                            &e.blob,
+                        ));
                     }
                     mp_nh = Some(val[1..].to_vec());
                 } else {
                     rest.extend_from_slice(whole);
                 }
             }
-            let (ga, gnh) = match parse_attr_blob(ps, &rest, if r.v6 { None } else { Some(&r.prefix_wire) }) {
-                Ok(x) => x,
-                Err(why) => {
-                    let c = if why.starts_with("panic/") { why.split(':').next().unwrap_or("panic").to_string() } else { "attrs-unparsable".to_string() };
-                    return Err(finding("rib", &c, "attributes of a RIB entry are not readable by the repository's parser", format!("{} entry {}: {}", pname, n, why), &e.blob));
-                }
-            };
+            let (ga, gnh) =
+                match parse_attr_blob(ps, &rest, if r.v6 { None } else { Some(&r.prefix_wire) }) {
+                    Ok(x) => x,
+                    Err(why) => {
+                        let c = if why.starts_with("panic/") {
+                            why.split(':').next().unwrap_or("panic").to_string()
+                        } else {
+                            "attrs-unparsable".to_string()
+                        };
+                        return Err(finding(
+                            "rib",
+                            &c,
+                            "attributes of a RIB entry are not readable by the repository's parser",
+                            format!("{} entry {}: {}", pname, n, why),
+                            &e.blob,
+                        ));
+                    }
+                };
             let p = &table_read[e.idx];
-            got.push((p.addr.clone(), p.asn, p.id, ga, mp_nh.or(gnh.map(|n| nh_bytes(&n)))));
+            got.push((
+                p.addr.clone(),
+                p.asn,
+                p.id,
+                ga,
+                mp_nh.or(gnh.map(|n| nh_bytes(&n))),
+            ));
         }
         // multiset equality of entries and the RIB's paths
         let mut w: Vec<GtPath> = want.clone();
@@ -500,23 +958,67 @@ fn judge_table_dump(ps: &mut Parsers, bytes: &[u8], router_id: Ipv4Addr, gt: &BT
             } else if strip_peer(&w) == strip_peer(&g) {
                 "peer-index-wrong-peer"
             } else if strip_nh(&w) == strip_nh(&g) {
-                if !r.v6 && w.iter().any(|p| p.4.as_ref().is_some_and(|n| n.len() != 4)) { "nexthop-differs/ipv4-prefix-v6-nexthop" } else { "nexthop-differs" }
+                if !r.v6 && w.iter().any(|p| p.4.as_ref().is_some_and(|n| n.len() != 4)) {
+                    "nexthop-differs/ipv4-prefix-v6-nexthop"
+                } else {
+                    "nexthop-differs"
+                }
             } else {
                 "attrs-differ"
             };
             let what = match clause {
-                "entry-count" => "number of RIB entries differs from the paths the RIB holds for the prefix",
-                "peer-index-wrong-peer" => "peer index does not point at the peer the path was learned from",
+                "entry-count" => {
+                    "number of RIB entries differs from the paths the RIB holds for the prefix"
+                }
+                "peer-index-wrong-peer" => {
+                    "peer index does not point at the peer the path was learned from"
+                }
                 "attrs-differ" => "attributes of a RIB entry differ from the path's attributes",
                 _ => "next hop of a RIB entry differs from the path's next hop",
             };
-            let only_w: Vec<String> = w.iter().filter(|p| !g.contains(p)).take(4).map(gt_path_str).collect();
-            let only_g: Vec<String> = g.iter().filter(|p| !w.contains(p)).take(4).map(gt_path_str).collect();
-            return Err(finding("rib", clause, what, format!("{}: RIB holds {} paths, record has {} entries; only in RIB: {:?}; only in record: {:?}", pname, w.len(), g.len(), only_w, only_g), bytes));
+            let only_w: Vec<String> = w
+                .iter()
+                .filter(|p| !g.contains(p))
+                .take(4)
+                .map(gt_path_str)
+                .collect();
+            let only_g: Vec<String> = g
+                .iter()
+                .filter(|p| !w.contains(p))
+                .take(4)
+                .map(gt_path_str)
+                .collect();
+            return Err(finding(
+                "rib",
+                clause,
+                what,
+                format!(
+                    "{}: RIB holds {} paths, record has {} entries; only in RIB: {:?}; only in record: {:?}",
+                    pname,
+                    w.len(),
+                    g.len(),
+                    only_w,
+                    only_g
+                ),
+                bytes,
+            ));
         }
         rep.eval();
-        rep.nontrivial(fnv64(&[&r.prefix_wire[..], &r.entries.iter().flat_map(|e| e.blob.clone()).collect::<Vec<u8>>()[..]].concat()));
-        rep.count(if r.v6 { "mrtd:td-rib-ipv6" } else { "mrtd:td-rib-ipv4" });
+        rep.nontrivial(fnv64(
+            &[
+                &r.prefix_wire[..],
+                &r.entries
+                    .iter()
+                    .flat_map(|e| e.blob.clone())
+                    .collect::<Vec<u8>>()[..],
+            ]
+            .concat(),
+        ));
+        rep.count(if r.v6 {
+            "mrtd:td-rib-ipv6"
+        } else {
+            "mrtd:td-rib-ipv4"
+        });
         rep.count_n("mrtd:td-rib-entries", r.entries.len() as u64);
         rep.max("td-entries-per-prefix", r.entries.len() as u64);
         if r.entries.len() > 1 {
@@ -525,7 +1027,11 @@ fn judge_table_dump(ps: &mut Parsers, bytes: &[u8], router_id: Ipv4Addr, gt: &BT
         if r.entries.iter().any(|e| e.idx > 0) {
             rep.count("mrtd:td-rib-nonzero-peer-index");
         }
-        if !r.v6 && want.iter().any(|p| p.4.as_ref().is_some_and(|n| n.len() != 4)) {
+        if !r.v6
+            && want
+                .iter()
+                .any(|p| p.4.as_ref().is_some_and(|n| n.len() != 4))
+        {
             rep.count("mrtd:td-ipv4-prefix-v6-nexthop");
         }
         // two paths of one add-path peer for one prefix: the path id cannot be
@@ -540,7 +1046,13 @@ fn judge_table_dump(ps: &mut Parsers, bytes: &[u8], router_id: Ipv4Addr, gt: &BT
     }
     for (k, (pname, _)) in gt {
         if !used.contains_key(k) {
-            return Err(finding("rib", "prefix-missing", "a prefix the RIB holds has no RIB record in the dump", pname.clone(), bytes));
+            return Err(finding(
+                "rib",
+                "prefix-missing",
+                "a prefix the RIB holds has no RIB record in the dump",
+                pname.clone(),
+                bytes,
+            ));
         }
     }
     Ok(())
@@ -563,7 +1075,9 @@ fn history(rep: &mut Report, ps: &mut Parsers, rng: &mut Rng, hseed: u64, dir: &
     let shards = *rng.pick(&[1usize, 2, 4]);
     let tables: TableHandle = Arc::new(TableManager::new(shards));
     if rng.chance(1, 4) {
-        tables.import_policy.store(Some(import_policy_set_local_pref()));
+        tables
+            .import_policy
+            .store(Some(import_policy_set_local_pref()));
         rep.count("mrtd:histories-with-import-policy");
     }
     let peers = gen_peers(rng);
@@ -593,7 +1107,11 @@ fn history(rep: &mut Report, ps: &mut Parsers, rng: &mut Rng, hseed: u64, dir: &
             rep.count("unjudged:attrs-not-bgp-stable");
         }
     }
-    let rt = match tokio::runtime::Builder::new_multi_thread().worker_threads(2).enable_all().build() {
+    let rt = match tokio::runtime::Builder::new_multi_thread()
+        .worker_threads(2)
+        .enable_all()
+        .build()
+    {
         Ok(r) => r,
         Err(_) => {
             rep.inconclusive("cannot build a tokio runtime");
@@ -639,7 +1157,14 @@ fn history(rep: &mut Report, ps: &mut Parsers, rng: &mut Rng, hseed: u64, dir: &
         if !live.is_empty() && rng.chance(1, 5) {
             let k = rng.usize(live.len());
             let (wp, fam, net) = live.swap_remove(k);
-            let exp = RouteExp { family: fam, reach: false, entries: vec![net.clone()], nexthop: None, attrs: Arc::new(Vec::new()), addpath: peers[wp].addpath && fam != Family::L2VPN_EVPN && fam != Family::IPV6_VPN };
+            let exp = RouteExp {
+                family: fam,
+                reach: false,
+                entries: vec![net.clone()],
+                nexthop: None,
+                attrs: Arc::new(Vec::new()),
+                addpath: peers[wp].addpath && fam != Family::L2VPN_EVPN && fam != Family::IPV6_VPN,
+            };
             tables.remove_route(peers[wp].src.clone(), fam, net, None, i as u32);
             ops.push(Op { peer: wp, exp });
             continue;
@@ -659,13 +1184,35 @@ fn history(rep: &mut Report, ps: &mut Parsers, rng: &mut Rng, hseed: u64, dir: &
             gen_nlri(rng, fam, true)
         };
         // the register_peer above declared add-path for IPV4 / IPV6 / IPV4_VPN
-        let ap = peer.addpath && (fam == Family::IPV4 || fam == Family::IPV6 || fam == Family::IPV4_VPN);
-        let net = PathNlri { path_id: if ap { rng.range(1, 3) as u32 } else { 0 }, nlri };
+        let ap =
+            peer.addpath && (fam == Family::IPV4 || fam == Family::IPV6 || fam == Family::IPV4_VPN);
+        let net = PathNlri {
+            path_id: if ap { rng.range(1, 3) as u32 } else { 0 },
+            nlri,
+        };
         let nh = gen_nexthop_for(rng, fam, peer);
         let attrs = rng.pick(&pool).clone();
-        let exp = RouteExp { family: fam, reach: true, entries: vec![net.clone()], nexthop: nh, attrs: attrs.clone(), addpath: ap };
-        tables.insert_route(peer.src.clone(), fam, net.clone(), nh, attrs, None, i as u32);
-        if !live.iter().any(|(p, f, n)| *p == pi && *f == fam && *n == net) {
+        let exp = RouteExp {
+            family: fam,
+            reach: true,
+            entries: vec![net.clone()],
+            nexthop: nh,
+            attrs: attrs.clone(),
+            addpath: ap,
+        };
+        tables.insert_route(
+            peer.src.clone(),
+            fam,
+            net.clone(),
+            nh,
+            attrs,
+            None,
+            i as u32,
+        );
+        if !live
+            .iter()
+            .any(|(p, f, n)| *p == pi && *f == fam && *n == net)
+        {
             live.push((pi, fam, net));
         }
         ops.push(Op { peer: pi, exp });
@@ -673,23 +1220,33 @@ fn history(rep: &mut Report, ps: &mut Parsers, rng: &mut Rng, hseed: u64, dir: &
     // fix the expectation of withdraws of add-path state (computed from the same rule as inserts)
     for op in ops.iter_mut() {
         let f = op.exp.family;
-        op.exp.addpath = peers[op.peer].addpath && (f == Family::IPV4 || f == Family::IPV6 || f == Family::IPV4_VPN);
+        op.exp.addpath = peers[op.peer].addpath
+            && (f == Family::IPV4 || f == Family::IPV6 || f == Family::IPV4_VPN);
     }
 
     // ---- direct path: the events of my own subscription through adj_rib_in_to_mrt + a session-long codec
     let mut codec = mrt::MrtCodec::new();
     let mut k = 0usize;
     while let Ok(ev) = mine.rx.try_recv() {
-        let crate::table_manager::BgpEvent::AdjRibIn(change) = ev else { continue };
+        let crate::table_manager::BgpEvent::AdjRibIn(change) = ev else {
+            continue;
+        };
         if k >= ops.len() {
-            rep.violation("C19/mrtd/bgp4mp/extra-event", "more Adj-RIB-In events than route operations", Json::Int(hseed as i128));
+            rep.violation(
+                "C19/mrtd/bgp4mp/extra-event",
+                "more Adj-RIB-In events than route operations",
+                Json::Int(hseed as i128),
+            );
             break;
         }
         let op = &ops[k];
         k += 1;
         rep.eval();
         if let Err(why) = exp_bgp_stable(ps, &op.exp, false) {
-            rep.count(&format!("unjudged:bgp-codec-unstable/{}", why.split(':').next().unwrap_or("")));
+            rep.count(&format!(
+                "unjudged:bgp-codec-unstable/{}",
+                why.split(':').next().unwrap_or("")
+            ));
             continue;
         }
         let out = guard(|| {
@@ -700,11 +1257,33 @@ fn history(rep: &mut Report, ps: &mut Parsers, rng: &mut Rng, hseed: u64, dir: &
         let bytes = match out {
             Ok(Ok(b)) => b,
             Ok(Err(e)) => {
-                report(rep, finding("bgp4mp", "encode-error", "MrtCodec refuses what adj_rib_in_to_mrt built", format!("{:?}", e), &[]), op_json(op, &peers), hseed);
+                report(
+                    rep,
+                    finding(
+                        "bgp4mp",
+                        "encode-error",
+                        "MrtCodec refuses what adj_rib_in_to_mrt built",
+                        format!("{:?}", e),
+                        &[],
+                    ),
+                    op_json(op, &peers),
+                    hseed,
+                );
                 continue;
             }
             Err(p) => {
-                report(rep, finding("bgp4mp", &format!("panic/{}:{}", p.location, panic_class(&p.message)), "adj_rib_in_to_mrt / MrtCodec panicked", p.message, &[]), op_json(op, &peers), hseed);
+                report(
+                    rep,
+                    finding(
+                        "bgp4mp",
+                        &format!("panic/{}:{}", p.location, panic_class(&p.message)),
+                        "adj_rib_in_to_mrt / MrtCodec panicked",
+                        p.message,
+                        &[],
+                    ),
+                    op_json(op, &peers),
+                    hseed,
+                );
                 continue;
             }
         };
@@ -724,13 +1303,22 @@ fn history(rep: &mut Report, ps: &mut Parsers, rng: &mut Rng, hseed: u64, dir: &
         rep.violation(
             "C19/mrtd/bgp4mp/event-count",
             "number of Adj-RIB-In events delivered differs from the route operations performed",
-            Json::obj(vec![("events", Json::Int(k as i128)), ("ops", Json::Int(ops.len() as i128)), ("history_seed", Json::Int(hseed as i128))]),
+            Json::obj(vec![
+                ("events", Json::Int(k as i128)),
+                ("ops", Json::Int(ops.len() as i128)),
+                ("history_seed", Json::Int(hseed as i128)),
+            ]),
         );
     }
 
     // ---- the real serve loop: wait until it has written one record per op, then stop it
     let want = ops.len();
-    let count_recs = |p: &str| -> usize { std::fs::read(p).ok().and_then(|b| read_mrt(&b).ok().map(|r| r.len())).unwrap_or(0) };
+    let count_recs = |p: &str| -> usize {
+        std::fs::read(p)
+            .ok()
+            .and_then(|b| read_mrt(&b).ok().map(|r| r.len()))
+            .unwrap_or(0)
+    };
     let settled = wait_until(|| count_recs(&upd_path) >= want, 20);
     cancel.cancel();
     let _ = rt.block_on(jh);
@@ -739,8 +1327,12 @@ fn history(rep: &mut Report, ps: &mut Parsers, rng: &mut Rng, hseed: u64, dir: &
     let router_id = Ipv4Addr::new(10, 255, rng.below(256) as u8, 1);
     let td_res = guard(|| {
         rt.block_on(async {
-            let mut f = tokio::fs::File::create(&td_path).await.map_err(|e| format!("create: {}", e))?;
-            dump_table(router_id, &tables, &mut f).await.map_err(|e| format!("dump_table: {:?}", e))?;
+            let mut f = tokio::fs::File::create(&td_path)
+                .await
+                .map_err(|e| format!("create: {}", e))?;
+            dump_table(router_id, &tables, &mut f)
+                .await
+                .map_err(|e| format!("dump_table: {:?}", e))?;
             f.flush().await.map_err(|e| format!("flush: {}", e))?;
             Ok::<(), String>(())
         })
@@ -754,12 +1346,34 @@ fn history(rep: &mut Report, ps: &mut Parsers, rng: &mut Rng, hseed: u64, dir: &
 
     // BGP4MP file: one record per op, in op order
     match read_mrt(&upd) {
-        Err((c, d)) => report(rep, finding("file", &c, "MRT common header lengths do not delimit the records of the update dump file", d, &upd), Json::s("update dump"), hseed),
+        Err((c, d)) => report(
+            rep,
+            finding(
+                "file",
+                &c,
+                "MRT common header lengths do not delimit the records of the update dump file",
+                d,
+                &upd,
+            ),
+            Json::s("update dump"),
+            hseed,
+        ),
         Ok(recs) => {
             if !settled && recs.len() < want {
                 rep.inconclusive("MrtDumper::serve had not written all records after 20 s");
             } else if recs.len() != want {
-                report(rep, finding("bgp4mp", "record-count", "the update dump does not hold exactly one record per single-prefix Adj-RIB-In change", format!("{} records for {} changes", recs.len(), want), &[]), Json::s("update dump"), hseed);
+                report(
+                    rep,
+                    finding(
+                        "bgp4mp",
+                        "record-count",
+                        "the update dump does not hold exactly one record per single-prefix Adj-RIB-In change",
+                        format!("{} records for {} changes", recs.len(), want),
+                        &[],
+                    ),
+                    Json::s("update dump"),
+                    hseed,
+                );
             } else {
                 let mut off = 0usize;
                 for (r, op) in recs.iter().zip(&ops) {
@@ -783,10 +1397,32 @@ fn history(rep: &mut Report, ps: &mut Parsers, rng: &mut Rng, hseed: u64, dir: &
 
     // TABLE_DUMP_V2 file
     match td_res {
-        Err(p) => report(rep, finding("file", &format!("panic/{}:{}", p.location, panic_class(&p.message)), "dump_table panicked", p.message, &[]), Json::s("table dump"), hseed),
+        Err(p) => report(
+            rep,
+            finding(
+                "file",
+                &format!("panic/{}:{}", p.location, panic_class(&p.message)),
+                "dump_table panicked",
+                p.message,
+                &[],
+            ),
+            Json::s("table dump"),
+            hseed,
+        ),
         Ok(Err(e)) => {
             if e.starts_with("dump_table") {
-                report(rep, finding("file", "dump-error", "dump_table failed on a populated RIB", e, &[]), Json::s("table dump"), hseed)
+                report(
+                    rep,
+                    finding(
+                        "file",
+                        "dump-error",
+                        "dump_table failed on a populated RIB",
+                        e,
+                        &[],
+                    ),
+                    Json::s("table dump"),
+                    hseed,
+                )
             } else {
                 rep.inconclusive(&format!("table dump file: {}", e));
             }
@@ -798,14 +1434,30 @@ fn history(rep: &mut Report, ps: &mut Parsers, rng: &mut Rng, hseed: u64, dir: &
             let desc = Json::obj(vec![
                 ("router_id", Json::s(router_id.to_string())),
                 ("shards", Json::Int(shards as i128)),
-                ("peers", Json::strs(peers.iter().map(|p| format!("{} AS{} id {} addpath={}", p.src.remote_addr, p.src.remote_asn, Ipv4Addr::from(p.src.router_id), p.addpath)))),
+                (
+                    "peers",
+                    Json::strs(peers.iter().map(|p| {
+                        format!(
+                            "{} AS{} id {} addpath={}",
+                            p.src.remote_addr,
+                            p.src.remote_asn,
+                            Ipv4Addr::from(p.src.router_id),
+                            p.addpath
+                        )
+                    })),
+                ),
                 ("rib_prefixes", Json::Int(gt.len() as i128)),
                 ("ops", Json::Int(ops.len() as i128)),
             ]);
             if let Err(f) = judge_table_dump(ps, &td, router_id, &gt, rep) {
                 report(rep, f, desc, hseed);
             } else if rep.want_sample() {
-                rep.sample(Json::obj(vec![("kind", Json::s("table-dump")), ("input", desc), ("file_bytes", Json::Int(td.len() as i128)), ("verdict", Json::s("held"))]));
+                rep.sample(Json::obj(vec![
+                    ("kind", Json::s("table-dump")),
+                    ("input", desc),
+                    ("file_bytes", Json::Int(td.len() as i128)),
+                    ("verdict", Json::s("held")),
+                ]));
             }
         }
     }
@@ -820,7 +1472,11 @@ fn run() {
     let mut rep = Report::new("C19", &params);
     let mut ps = Parsers::new();
     let mut rng = Rng::new(params.seed ^ 0xC19_D000);
-    let dir = format!("/verif/target/tmp/c19m-{}-{}", std::process::id(), params.shard);
+    let dir = format!(
+        "/verif/target/tmp/c19m-{}-{}",
+        std::process::id(),
+        params.shard
+    );
     if std::fs::create_dir_all(&dir).is_err() {
         rep.inconclusive("cannot create the scratch directory under /verif/target/tmp");
         let _ = rep.finish();
